@@ -161,7 +161,10 @@ _ORDER_ISSUES: list = []
 _ENUM_FORM: list = []
 
 
-def _reader_layout(f, idx=None):
+_ALT_LAYOUTS: list = []
+
+
+def _reader_layout(f, idx=None, _alt=None):
     """(header names, reshape dims, axis permutation applied after the reshape) of a from_w90_file reader, read off the
     resolved `data=` argument of the object it returns (transpose / swapaxes / trailing column selection are composed)."""
     cfg, du, pm = fctx(f)
@@ -188,6 +191,38 @@ def _reader_layout(f, idx=None):
     e = dv
     while isinstance(e, ast.Name) and step(e, at) is not None:
         e, at = step(e, at)
+    if isinstance(e, ast.Name) and _alt is None:
+        # the data are built on several paths (e.g. a pooled and a serial conversion): every path must lay the stream out the same way
+        ds_ = [d_ for d_ in du.reaching(e.id, at) if d_.kind == "assign" and d_.value is not None]
+        if len(ds_) > 1:
+            outs_ = [_reader_layout(f, idx, _alt=(d_.value, d_.node)) for d_ in ds_]
+            for o_, d_ in zip(outs_[1:], ds_[1:]):
+                _ALT_LAYOUTS.append((o_, d_.stmt))
+            return outs_[0]
+    if _alt is not None:
+        e, at = _alt
+    # [block(ik).reshape(a, b) for ik in range(NK)]  ≡  stream.reshape(NK, a, b)
+    if isinstance(e, ast.ListComp) and len(e.generators) == 1 and isinstance(e.generators[0].iter, ast.Call) and call_name(e.generators[0].iter) == "range" \
+            and len(e.generators[0].iter.args) == 1 and ((isinstance(e.elt, ast.Call) and isinstance(e.elt.func, ast.Attribute)) or
+                                                         (isinstance(e.elt, ast.Attribute) and e.elt.attr == "T")):
+        nk_ = norm(e.generators[0].iter.args[0])
+        x_ = e.elt
+        perm_ = None
+        while isinstance(x_, ast.Call) and isinstance(x_.func, ast.Attribute) and x_.func.attr in ("transpose", "copy") or \
+                (isinstance(x_, ast.Attribute) and x_.attr == "T"):
+            if isinstance(x_, ast.Attribute):
+                perm_ = [0, 2, 1]
+                x_ = x_.value
+            elif x_.func.attr == "transpose" and not x_.args:
+                perm_ = [0, 2, 1]
+                x_ = x_.func.value
+            elif x_.func.attr == "copy":
+                x_ = x_.func.value
+            else:
+                break
+        if isinstance(x_, ast.Call) and isinstance(x_.func, ast.Attribute) and x_.func.attr == "reshape":
+            dargs_ = list(x_.args[0].elts) if len(x_.args) == 1 and isinstance(x_.args[0], ast.Tuple) else list(x_.args)
+            return header, [nk_] + [norm(d_) for d_ in dargs_], perm_, f
     if isinstance(e, ast.DictComp):
         # {ik: arr[ik] for ik in selected}: per-k view of arr
         kv = norm(e.key)
@@ -443,6 +478,28 @@ def run(ctx) -> None:
              from_npz, from_npz.node, f"WannierData.to_npz writes the symmetrizer as '.{sext}.npz' but from_npz reads {lit}",
              stmt="symmetrizer extension")
 
+    # the `irreducible` flag of a loaded container: "some file holds fewer k-points than the grid".  It is found file by file, so inside the
+    # loop over the files it may only be raised (or accumulated with `or`), never recomputed from the file at hand alone
+    FN_ = Sem(idx, from_npz)
+    st_irr = [s_ for s_ in stmts(from_npz.node) if isinstance(s_, ast.Assign) and norm(s_.targets[0]) == "self.irreducible"]
+    if r4.expect(len(st_irr) == 1 and isinstance(st_irr[0].value, ast.Name), "from_npz: store of self.irreducible located", from_npz, from_npz.node,
+                 "WannierData.from_npz: `self.irreducible = <flag>` not found"):
+        flag_ = st_irr[0].value.id
+        r4.instance(f"{from_npz.short}: {flag_} → self.irreducible")
+        for d_ in FN_.du.reaching(flag_, FN_.cfg.node(st_irr[0])):
+            if d_.kind != "assign" or d_.stmt is None:
+                continue
+            in_loop = [l_ for l_ in enclosing_all(FN_.pm, d_.stmt, (ast.For, ast.While))]
+            if not in_loop:
+                continue
+            v_ = d_.value
+            monotone = (isinstance(v_, ast.Constant) and v_.value is True) or \
+                (isinstance(v_, ast.BoolOp) and isinstance(v_.op, ast.Or) and any(norm(x_) == flag_ for x_ in v_.values)) or \
+                (isinstance(v_, ast.BinOp) and isinstance(v_.op, ast.BitOr) and flag_ in (norm(v_.left), norm(v_.right)))
+            r4.check(monotone, f"`{norm1(d_.stmt)}` only raises the flag", from_npz, d_.stmt,
+                     f"`{norm1(d_.stmt)}` recomputes `{flag_}` from the file inspected in this pass of the loop: the value found for an earlier file (and the "
+                     f"caller's argument) is overwritten by the last file, so a container saved from irreducible k-points can come back with irreducible=False")
+
     # ---------------------------------------------------------------- R19.5
     r5 = ctx.rule("R19.5", "text layout: writer loop nest/index/header ↔ reader reshape/transpose/unpack", min_instances=3)
     for fn, cn in WRITABLE:
@@ -455,6 +512,7 @@ def run(ctx) -> None:
         whead, (loops, index, wcall), columns = _writer_layout(w, idx)
         _ORDER_ISSUES.clear()
         _ENUM_FORM.clear()
+        _ALT_LAYOUTS.clear()
         rhead, reshape, perm, _ = _reader_layout(rd, idx)
         for f_i, node_i, msg_i in _ORDER_ISSUES:
             r5.violation(f_i, node_i, f"{cn}: {msg_i}", stmt="row/k-point pairing")
@@ -482,6 +540,18 @@ def run(ctx) -> None:
         r5.check(got == index, f"{cn}: reader axes after transpose {got} equal the written index {index}", w, wcall,
                  f"{cn}: the element written at loop position {lvars} is data[{', '.join(index)}], but the reader's "
                  f"reshape+transpose{tuple(perm) if perm else ''} stores it at [{', '.join(got)}]")
+        for (h2_, rs2_, pm2_, _f2), st2_ in list(_ALT_LAYOUTS):
+            if rs2_ is None:
+                r5.expect(False, "", rd, st2_, f"{cn}: a second construction of the data (`{norm1(st2_, 70)}`) has no recognisable reshape")
+                continue
+            nm2_ = [d for d in rs2_ if not d.isdigit()]
+            p2_ = pm2_ if pm2_ is not None else list(range(len(nm2_)))
+            p2_ = [x for x in p2_ if x < len(lvars)]
+            eff2_ = [nm2_[x] for x in p2_] if len(nm2_) == len(lvars) else nm2_
+            g2_ = [lvars[x] for x in p2_]
+            r5.check(nm2_ == lsizes and g2_ == index, f"{cn}: alternative construction `{norm1(st2_, 60)}` lays the stream out like the writer", rd, st2_,
+                     f"{cn}: on the path `{norm1(st2_, 80)}` the stream written in loop order {list(zip(lvars, lsizes))} is reshaped as {rs2_}"
+                     f"{' and permuted ' + str(tuple(pm2_)) if pm2_ else ''}: the element data[{', '.join(index)}] is read back at another index than on the other path")
     # EIG columns: col c ↔ size name
     eigc = idx.cls(W90 + "eig.py", "EIG")
     rd = eigc.methods["from_w90_file"]
